@@ -251,6 +251,8 @@ class _Filter:
             def g(rule, *a, **kw):
                 if rule in self.keep:
                     return f(self.rename + rule, *a, **kw)
+                if name == "expect":
+                    return bool(a[1]) if len(a) > 1 else True      # keep control flow of the imported module intact
                 return True
             return g
         return f
